@@ -139,6 +139,9 @@ struct ThreadRec {
     switches_in: u64,
     /// Step since which this thread has continuously been a candidate without running.
     cand_since: Option<u64>,
+    /// Spin hints of the forwarding-word wait loop since this thread last started or finished a
+    /// work packet (a waiter that never gets out is a livelock).
+    fwd_spins: u64,
 }
 
 #[derive(Default, Clone, Debug, Serialize, Deserialize)]
@@ -204,6 +207,11 @@ pub struct Sched {
     obs: OnceLock<&'static dyn Observer>,
 }
 
+/// A tracer waits for the winner of a forwarding race by polling the forwarding word; the
+/// winner needs a bounded number of its own steps to finish.  (The fairness rules hand the
+/// token to the longest-waiting thread at every spin hint.)
+const FWD_SPIN_LIMIT: u64 = 200_000;
+
 static SCHED: OnceLock<Sched> = OnceLock::new();
 static TOKEN: AtomicUsize = AtomicUsize::new(NO_TID);
 static IN_FATAL: AtomicBool = AtomicBool::new(false);
@@ -257,6 +265,7 @@ pub fn init(cfg: SchedConfig, obs: &'static dyn Observer) {
             stalled_until: 0,
             switches_in: 0,
             cand_since: None,
+            fwd_spins: 0,
         }],
         current: 0,
         rng,
@@ -320,6 +329,7 @@ pub fn spawn<F: FnOnce() + Send + 'static>(name: &str, f: F) -> usize {
             stalled_until: 0,
             switches_in: 0,
             cand_since: None,
+            fwd_spins: 0,
         });
         st.stats.threads += 1;
     }
@@ -847,6 +857,16 @@ impl SimRuntime for Rt {
         let s = sched();
         let mut st = s.st.lock().unwrap();
         st.stats.spin_hints += 1;
+        if site_id == site::SPIN_FORWARDING {
+            st.threads[me].fwd_spins += 1;
+            if st.threads[me].fwd_spins > FWD_SPIN_LIMIT {
+                let d = format!(
+                    "thread {} has polled the forwarding word of one object {} times without leaving its work packet",
+                    st.threads[me].name, st.threads[me].fwd_spins
+                );
+                s.fatal_locked(&mut st, "livelock-forwarding", d);
+            }
+        }
         let since = st.progress;
         st.threads[me].state = TState::Spinning { since };
         s.reschedule(st, me, site_id, true);
@@ -932,6 +952,9 @@ impl SimRuntime for Rt {
         let s = sched();
         let step = {
             let mut st = s.st.lock().unwrap();
+            if (kind == rt::ev::PACKET_RUN || kind == rt::ev::PACKET_DONE) && me != NO_TID {
+                st.threads[me].fwd_spins = 0;
+            }
             // `c` of packet events is an opaque identity (a heap address): never hashed.
             let c_h = if kind <= rt::ev::PACKET_DONE { 0 } else { c as u64 };
             fnv_u64(
